@@ -164,16 +164,39 @@ def run(ctx):
              "tuple field, kB*1024; ' (deleted)' stripped only for paths that do "
              "not exist (readlink() and memory_maps() agree)", floor=14)
     mm = repo.func(pm, "Process.memory_maps")
-    gb = repo.func(pm, "Process.memory_maps.get_blocks")
-    splits = [c for f in (mm, gb) for c in calls_in(f.node)
-              if isinstance(c.func, ast.Attribute) and c.func.attr == "split"
-              and dotted(c.func.value) in ("header", "line")]
-    ctx.require(len(splits) >= 2, "memory_maps: header/line splits vanished")
-    for c in splits:
+    # the HEADER split is the one whose result is unpacked into the six header
+    # columns (address, perms, offset, dev, inode, path): it must be bounded by 5 so
+    # that a path containing spaces stays whole.  Found anywhere in memory_maps(),
+    # nested helpers included; other splits (key lines) are not constrained.
+    allnodes = list(ast.walk(mm.node))
+    hsplits = []
+    for st_ in allnodes:
+        if isinstance(st_, ast.Assign) and isinstance(st_.targets[0], ast.Tuple) \
+                and len(st_.targets[0].elts) == 6:
+            v_ = deref(mm.node, st_.value)
+            for fn_ in [x for x in allnodes if isinstance(x, ast.FunctionDef) and x is not mm.node]:
+                if any(y is st_ for y in ast.walk(fn_)):
+                    v_ = deref(fn_, st_.value)
+            cands = [v_]
+            if isinstance(v_, ast.Name):
+                # assigned in several places (e.g. an inlined helper used twice): every
+                # definition counts
+                cands = [a_.value for a_ in allnodes if isinstance(a_, ast.Assign)
+                         and any(isinstance(t_, ast.Name) and t_.id == v_.id for t_ in a_.targets)]
+            for v2 in cands:
+                if isinstance(v2, ast.BinOp):       # hfields + ['']
+                    v2 = v2.left if not isinstance(v2.left, ast.List) else v2.right
+                    if isinstance(v2, ast.Name):
+                        continue
+                if isinstance(v2, ast.Call) and isinstance(v2.func, ast.Attribute) \
+                        and v2.func.attr == "split":
+                    hsplits.append(v2)
+    ctx.require(hsplits, "memory_maps: the six-column header unpacking vanished")
+    for c in hsplits:
         a = [norm_stmt(x) for x in c.args]
-        key = f"split:{dotted(c.func.value)}"
+        key = "split:header"
         if a == ["None", "5"]:
-            ctx.ok("C13.R3", key, sample=f"{dotted(c.func.value)}.split(None, 5)")
+            ctx.ok("C13.R3", key, sample=f"{norm_stmt(c)}")
         else:
             ctx.fail("C13.R3", key, mm.file, c.lineno, mm.qual,
                      f"`{norm_stmt(c)}`: the mapping header must be split at most 5 times "
@@ -206,14 +229,26 @@ def run(ctx):
             ctx.fail("C13.R3", key, mm.file, e.lineno, mm.qual,
                      f"pmmap field {fld} is filled from `{norm_stmt(e)}`; expected the "
                      f"smaps key {fld.title()!r} (default 0)")
-    stores = [st for st in ast.walk(gb.node) if isinstance(st, ast.Assign)
-              and isinstance(st.targets[0], ast.Subscript)]
-    conv = stores and norm_stmt(stores[0].value).replace(" ", "") == "int(fields[1])*1024" \
-        and norm_stmt(stores[0].targets[0].slice) == "fields[0]"
+    # figures: <map>[<tok>[0]] = int(<tok>[1]) * 1024 for one split result <tok>
+    conv = False
+    for st_ in allnodes:
+        if isinstance(st_, ast.Assign) and isinstance(st_.targets[0], ast.Subscript):
+            k_, v_ = st_.targets[0].slice, st_.value
+            if isinstance(k_, ast.Subscript) and isinstance(k_.value, ast.Name) \
+                    and norm_stmt(k_.slice) == "0" and isinstance(v_, ast.BinOp) \
+                    and isinstance(v_.op, ast.Mult):
+                sides = [v_.left, v_.right]
+                c1024 = [x for x in sides if isinstance(x, ast.Constant) and x.value == 1024]
+                ints = [x for x in sides if isinstance(x, ast.Call) and dotted(x.func) == "int"
+                        and x.args and isinstance(x.args[0], ast.Subscript)
+                        and dotted(x.args[0].value) == k_.value.id
+                        and norm_stmt(x.args[0].slice) == "1"]
+                if c1024 and ints:
+                    conv = True
     if conv:
         ctx.ok("C13.R3", "kb", sample="data[fields[0]] = int(fields[1]) * 1024")
     else:
-        ctx.fail("C13.R3", "kb", gb.file, gb.node.lineno, gb.qual,
+        ctx.fail("C13.R3", "kb", mm.file, mm.node.lineno, mm.qual,
                  "per-mapping figures are not int(value) * 1024 keyed by the smaps key")
     anon = [st for st in ast.walk(mm.node) if isinstance(st, ast.Assign)
             and isinstance(st.value, ast.Constant) and st.value.value == "[anon]"]
